@@ -340,6 +340,22 @@ fn c19_distance_panics_nonpositive_p() {
     let _ = a.distance(&b, p);
 }
 
+/// C19.K.distance.panics: the exponent is checked whatever the game looks like -- also when neither
+/// player has a multi-action infoset (nothing to sum over).
+#[kani::proof]
+#[kani::unwind(5)]
+#[kani::should_panic]
+#[kani::stub(f64::powf, powf_model)]
+#[kani::stub(std::fmt::format, lib_fmt_stub)]
+fn c19_distance_panics_nonpositive_p_empty() {
+    let g = game(&[], &[], &[]);
+    let a = Strategies { game: &g, probs: [Box::new([]), Box::new([])] };
+    let b = Strategies { game: &g, probs: [Box::new([]), Box::new([])] };
+    let p: f64 = kani::any();
+    kani::assume(!(p > 0.0));
+    let _ = a.distance(&b, p);
+}
+
 fn lib_fmt_stub(_: std::fmt::Arguments<'_>) -> String {
     String::new()
 }
